@@ -663,6 +663,11 @@ func (r *Runner) resolveBinaryExpression(ctx context.Context, expr *BinaryExpres
 		return r.resolveBarBarBinaryExpression(v1, v2)
 	case SK_Comma:
 		return r.resolveCommaBinaryExpression(v1, v2)
+	case SK_QuestionQuestion: // ??
+		if IsNull(v1) {
+			return v2, nil
+		}
+		return v1, nil
 	}
 	return nil, nil
 }
